@@ -10,6 +10,7 @@ import (
 	"os"
 	"path/filepath"
 	"sort"
+	"strconv"
 	"strings"
 	"sync"
 	"syscall"
@@ -141,7 +142,63 @@ func groupByConn(lines []string) []string {
 	return out
 }
 
+// c17Race: a client connects, writes and closes at the very moment the stream is cancelled, many
+// times over with the cancellation a few microseconds earlier or later: every round ends with the
+// output closed (a handler that starts on a closed output takes the whole process down, which the
+// engine reports as a crash of this case).
+func c17Race(r *runCtx, id string, f []string) {
+	rounds, _ := strconv.Atoi(f[2])
+	rg := &rng{s: 0x5eed + uint64(rounds)}
+	stuck := 0
+	for k := 0; k < rounds; k++ {
+		dir, err := os.MkdirTemp("", "verif-c17r")
+		if err != nil {
+			continue
+		}
+		addr := filepath.Join(dir, "s.sock")
+		ctx, cancel := context.WithCancel(context.Background())
+		var wg sync.WaitGroup
+		ls, err := logstream.New(ctx, &wg, newHWaker(), f[1]+"://"+addr, logstream.OneShotDisabled)
+		if err != nil {
+			cancel()
+			os.RemoveAll(dir)
+			continue
+		}
+		closed := make(chan struct{})
+		go func() {
+			for range ls.Lines() {
+			}
+			close(closed)
+		}()
+		go func() {
+			if c, derr := net.Dial(f[1], addr); derr == nil {
+				_, _ = c.Write([]byte("hello\n"))
+				c.Close()
+			}
+		}()
+		time.Sleep(time.Duration(rg.intn(120)) * time.Microsecond)
+		cancel()
+		select {
+		case <-closed:
+		case <-time.After(5 * time.Second):
+			stuck++
+		}
+		os.RemoveAll(dir)
+	}
+	r.obs(id, "race-done")
+	if stuck > 0 {
+		r.fail(id, "no-end", "%d of %d rounds: the output was not closed within 5 s of the cancellation", stuck, rounds)
+	} else {
+		r.ok(id)
+	}
+	r.stat("race_rounds")
+}
+
 func c17Run(r *runCtx, id string, f []string) {
+	if f[0] == "race" {
+		c17Race(r, id, f)
+		return
+	}
 	kind := f[1]
 	evs := c17Expand(strings.Split(f[2], ";"))
 	dir, err := os.MkdirTemp("", "verif-c17")
@@ -317,6 +374,10 @@ func c17Run(r *runCtx, id string, f []string) {
 func init() {
 	props["C17"] = &propImpl{
 		gen: func(g *genCtx) {
+			// connections that arrive while the stream is being cancelled
+			for _, n := range []int{300, 301, 302} {
+				g.emit("race", "unix", strconv.Itoa(n))
+			}
 			for _, kind := range []string{"unix", "tcp", "fifo", "unixgram"} {
 				// systematic small schedules
 				g.emit("sock", kind, "z")
